@@ -30,6 +30,8 @@ void STUB_secp256k1_ecmult_const(secp256k1_gej *r, const secp256k1_ge *a, const 
 #ifdef GLUE_ADD
 void STUB_secp256k1_gej_add_ge(secp256k1_gej *r, const secp256k1_gej *a, const secp256k1_ge *b) { int i = glue_next(4); glue_a[i] = *a; glue_b[i] = *b; *r = glue_R[i]; }
 void STUB_secp256k1_gej_add_ge_var(secp256k1_gej *r, const secp256k1_gej *a, const secp256k1_ge *b, secp256k1_fe *rzr) { int i = glue_next(4); (void)rzr; glue_a[i] = *a; glue_b[i] = *b; *r = glue_R[i]; }
+static secp256k1_gej glue_c[GLUE_MAX];
+void STUB_secp256k1_gej_add_var(secp256k1_gej *r, const secp256k1_gej *a, const secp256k1_gej *b, secp256k1_fe *rzr) { int i = glue_next(5); (void)rzr; glue_a[i] = *a; glue_c[i] = *b; *r = glue_R[i]; }
 #endif
 /* value of a 32-byte storage word array (4 native-endian uint64), as used by pubkey / keypair / signature objects */
 static bvw st_val(const unsigned char *p) { uint64_t w[4]; bvw v = 0; int i; memcpy(w, p, 32); for (i = 3; i >= 0; i--) v = (v << 64) | w[i]; return v; }
